@@ -5,6 +5,9 @@ Families of cases (each: Go observation -> direct oracle -> Gallina term for the
   name   NewName / WriteName / readName / TrimSuffix         (pkg dns)
   req    chunks, base32 coding, send -> query name           (pkg requester; second stage: dns, responder)
 """
+import os
+import sys
+import time
 from concurrent.futures import ThreadPoolExecutor
 
 from lib import gN, gbool, bspec_in, bspec_obs, lcg_bytes, hexs
@@ -877,8 +880,22 @@ TERMS = {"name_string": post_name_string, "exchange": post_exchange, "query": po
 
 
 def replay_cases(ctx):
+    """the replay file given on the command line, then the corpus of earlier failures (always run first)"""
+    import glob
+    import json
+    import lib
     out = []
-    for f in (ctx.replay or {}).get("failures", []) + [{"case": c} for c in (ctx.replay or {}).get("cases", [])]:
+    sources = [ctx.replay or {}]
+    for path in sorted(glob.glob(os.path.join(lib.VERIF, "corpus", "C15", "*.json"))):
+        try:
+            with open(path) as fh:
+                sources.append(json.load(fh))
+        except (OSError, ValueError):
+            pass
+    fails = []
+    for src in sources:
+        fails += src.get("failures", []) + [{"case": c} for c in src.get("cases", [])]
+    for f in fails:
         c = f.get("case") or {}
         fam = c.get("fam", "fmt" if "op" in c else None)
         try:
@@ -917,7 +934,6 @@ def replay_cases(ctx):
     return out
 
 
-import os, sys, time
 _T0 = [time.time()]
 
 
